@@ -17,7 +17,7 @@ use std::time::{Duration, Instant};
 #[derive(Clone, Debug)]
 enum WriteStep { Accept(usize), Block, Error }
 #[derive(Clone, Debug)]
-enum ReadStep { Frag(usize), Block }
+enum ReadStep { Frag(usize), Block, Error }
 
 struct LinkState {
     v5: bool,
@@ -139,16 +139,17 @@ impl LinkState {
         }
     }
 
-    /// Ok(n) (0 = EOF), Err(()) would block
-    fn do_read(&mut self, buf: &mut [u8]) -> Result<usize, ()> {
+    /// Ok(n) (0 = EOF), Err(true) would block, Err(false) the transport failed
+    fn do_read(&mut self, buf: &mut [u8]) -> Result<usize, bool> {
         self.read_calls += 1;
         if self.inbox.is_empty() {
-            return if self.eof { Ok(0) } else { Err(()) };
+            return if self.eof { Ok(0) } else { Err(true) };
         }
         let limit = match self.read_plan.pop_front() {
             None => usize::MAX,
             Some(ReadStep::Frag(n)) => n.max(1),
-            Some(ReadStep::Block) => { return Err(()); }
+            Some(ReadStep::Block) => { return Err(true); }
+            Some(ReadStep::Error) => { return Err(false); }
         };
         let k = limit.min(buf.len()).min(self.inbox.len());
         for slot in buf.iter_mut().take(k) { *slot = self.inbox.pop_front().unwrap(); self.rlog.push(*slot); }
@@ -163,7 +164,8 @@ impl Read for Link {
     fn read(&mut self, buf: &mut [u8]) -> std::io::Result<usize> {
         match self.0.lock().unwrap().do_read(buf) {
             Ok(n) => Ok(n),
-            Err(()) => Err(std::io::Error::from(std::io::ErrorKind::WouldBlock)),
+            Err(true) => Err(std::io::Error::from(std::io::ErrorKind::WouldBlock)),
+            Err(false) => Err(std::io::Error::from(std::io::ErrorKind::ConnectionReset)),
         }
     }
 }
@@ -201,7 +203,8 @@ impl tokio::io::AsyncRead for Link {
         let mut tmp = vec![0u8; buf.remaining()];
         match st.do_read(&mut tmp) {
             Ok(n) => { buf.put_slice(&tmp[..n]); Poll::Ready(Ok(())) }
-            Err(()) => {
+            Err(false) => Poll::Ready(Err(std::io::Error::from(std::io::ErrorKind::ConnectionReset))),
+            Err(true) => {
                 if was_empty { st.read_waker = Some(cx.waker().clone()); } else { cx.waker().wake_by_ref(); }
                 Poll::Pending
             }
@@ -305,6 +308,7 @@ fn parse_plans(args: &str) -> (VecDeque<WriteStep>, VecDeque<ReadStep>) {
     let mut r = VecDeque::new();
     for t in get("rplan").split(',').filter(|t| !t.is_empty()) {
         if t == "b" { r.push_back(ReadStep::Block); }
+        else if t == "e" { r.push_back(ReadStep::Error); }
         else if let Some(n) = t.strip_prefix('f') { r.push_back(ReadStep::Frag(n.parse().unwrap_or(1))); }
     }
     (w, r)
@@ -467,6 +471,13 @@ pub fn run(head: &str, steps: &str) -> Result<String, String> {
         match parts[0] {
             "start" => { events.lock().unwrap().push("|start|".to_string()); let r = match &handle { Handle::Tokio(c, _) => c.start(None), Handle::Threaded(c) => c.start(None) }; if r.is_err() { sync_errors.lock().unwrap().push(format!("start:{}", error_name(&r))); } }
             "stop" => { events.lock().unwrap().push("|stop|".to_string()); let r = match &handle { Handle::Tokio(c, _) => c.stop(None), Handle::Threaded(c) => c.stop(None) }; if r.is_err() { sync_errors.lock().unwrap().push(format!("stop:{}", error_name(&r))); } }
+            "stopd" => {
+                // a stop that sends a DISCONNECT first
+                events.lock().unwrap().push("|stop|".to_string());
+                let options = StopOptions::builder().with_disconnect_packet(DisconnectPacket::builder().with_reason_code(DisconnectReasonCode::NormalDisconnection).build()).build();
+                let r = match &handle { Handle::Tokio(c, _) => c.stop(Some(options)), Handle::Threaded(c) => c.stop(Some(options)) };
+                if r.is_err() { sync_errors.lock().unwrap().push(format!("stop:{}", error_name(&r))); }
+            }
             "close" => { events.lock().unwrap().push("|close|".to_string()); let r = match &handle { Handle::Tokio(c, _) => c.close(), Handle::Threaded(c) => c.close() }; if r.is_err() { sync_errors.lock().unwrap().push(format!("close:{}", error_name(&r))); } }
             "pub" | "pubcb" | "sub" | "unsub" => {
                 let tag = slots.lock().unwrap().len();
